@@ -151,6 +151,12 @@ theorem leafReserveExact_mono (k : Char) (len add cap : Nat) : cap ≤ leafReser
   · exact Nat.le_refl _
   · split <;> omega
 
+/-- growth never gives capacity back either: a push (and `insert`, `extend`, `append`, `resize` — `St.grow`) leaves every
+    field's capacity at least where it was -/
+theorem push_grow_mono (s : St) (add : Nat) :
+    (∀ q ∈ s.caps, q.2 ≤ leafPush q.1 s.len q.2) ∧ (∀ q ∈ s.caps, q.2 ≤ leafReserve q.1 s.len add q.2) :=
+  ⟨fun q _ => leafReserve_mono q.1 s.len 1 q.2, fun q _ => leafReserve_mono q.1 s.len add q.2⟩
+
 /-- **a standing promise survives later reservations**: if `n` more pushes were guaranteed not to move anything (after
     `with_capacity`, `reserve`, `reserve_exact`), they still are after any further `reserve(k)` / `reserve_exact(k)` -/
 theorem promise_survives_reserve (s : St) (n k : Nat) (h : ∀ p ∈ s.caps, s.len + n ≤ p.2) :
